@@ -12,10 +12,15 @@ import (
 	"context"
 	"errors"
 	"fmt"
+	"os"
 	"sort"
 	"strings"
 	"sync"
 	"testing"
+	"testing/synctest"
+	"time"
+
+	"github.com/ipfs/go-cid"
 
 	ds "github.com/ipfs/go-datastore"
 	"github.com/ipfs/go-datastore/query"
@@ -52,26 +57,61 @@ type c20Store struct {
 	journal []c20Entry
 	synced  int
 	syncPos []int // journal length at every successful Sync
-	tag     int
-	calls   []string // log of write/sync/query calls: "kind key" (for the reset driver)
+	syncTag []int // ghost snapshot id at every successful Sync
+	tag     int   // ghost snapshot id stamped on journal entries (reset oracle)
 
-	fail func(kind, key string) bool // true => this call fails (no effect)
-	hook func(kind, key string)      // called before the call, without the lock
+	fail func(a c20Actor, kind, key string) bool // true => this call fails (no effect)
+	// gate is called before a call, without the lock (may park the caller);
+	// raw is called under the lock, in the order the calls take effect.
+	gate func(ctx context.Context, kind, key string)
+	raw  func(ev c20Raw)
+}
+
+type c20ActorKey struct{}
+
+// c20Actor travels in the ctx handed to Put / ResetCids, so the datastore knows
+// on whose behalf a call is made (the worker uses the request's ctx).
+type c20Actor struct {
+	kind string // "put" or "reset"
+	idx  int
+}
+
+type c20Raw struct {
+	actor  c20Actor
+	kind   string // has get query put delete commit sync
+	key    string
+	ops    []c20Op
+	failed bool
+}
+
+func c20ActorOf(ctx context.Context) c20Actor {
+	if a, ok := ctx.Value(c20ActorKey{}).(c20Actor); ok {
+		return a
+	}
+	return c20Actor{}
 }
 
 func c20NewStore() *c20Store { return &c20Store{m: map[string][]byte{}} }
 
-func (s *c20Store) before(kind, k string) error {
-	if s.hook != nil {
-		s.hook(kind, k)
+func (s *c20Store) before(ctx context.Context, kind, k string, ops []c20Op) error {
+	if s.gate != nil {
+		s.gate(ctx, kind, k)
 	}
 	s.mu.Lock()
-	f := s.fail
-	s.mu.Unlock()
-	if f != nil && f(kind, k) {
+	defer s.mu.Unlock()
+	if s.fail != nil && s.fail(c20ActorOf(ctx), kind, k) {
+		if s.raw != nil {
+			s.raw(c20Raw{actor: c20ActorOf(ctx), kind: kind, key: k, ops: ops, failed: true})
+		}
 		return errC20Injected
 	}
 	return nil
+}
+
+func (s *c20Store) emit(ctx context.Context, kind, k string, ops []c20Op) {
+	if s.raw != nil {
+		s.raw(c20Raw{actor: c20ActorOf(ctx), kind: kind, key: k, ops: ops})
+	}
 }
 
 func (s *c20Store) applyLocked(ops []c20Op) {
@@ -95,36 +135,42 @@ func (s *c20Store) applyLocked(ops []c20Op) {
 	}
 }
 
-func (s *c20Store) write(ops []c20Op) {
+func (s *c20Store) write(ctx context.Context, kind, k string, ops []c20Op) {
 	s.mu.Lock()
 	defer s.mu.Unlock()
-	if len(ops) == 0 {
-		return
+	if len(ops) > 0 {
+		s.applyLocked(ops)
+		s.journal = append(s.journal, c20Entry{ops: ops, tag: s.tag})
 	}
-	s.applyLocked(ops)
-	s.journal = append(s.journal, c20Entry{ops: ops, tag: s.tag})
+	s.emit(ctx, kind, k, ops)
+	if len(ops) > 0 {
+		s.journal[len(s.journal)-1].tag = s.tag // ghost state once the write is accounted for
+	}
 }
 
 func (s *c20Store) Put(ctx context.Context, k ds.Key, v []byte) error {
-	if err := s.before("put", k.String()); err != nil {
+	ops := []c20Op{{key: k.String(), val: append([]byte(nil), v...)}}
+	if err := s.before(ctx, "put", k.String(), ops); err != nil {
 		return err
 	}
-	s.write([]c20Op{{key: k.String(), val: append([]byte(nil), v...)}})
+	s.write(ctx, "put", k.String(), ops)
 	return nil
 }
 func (s *c20Store) Delete(ctx context.Context, k ds.Key) error {
-	if err := s.before("delete", k.String()); err != nil {
+	ops := []c20Op{{del: true, key: k.String()}}
+	if err := s.before(ctx, "delete", k.String(), ops); err != nil {
 		return err
 	}
-	s.write([]c20Op{{del: true, key: k.String()}})
+	s.write(ctx, "delete", k.String(), ops)
 	return nil
 }
 func (s *c20Store) Get(ctx context.Context, k ds.Key) ([]byte, error) {
-	if err := s.before("get", k.String()); err != nil {
+	if err := s.before(ctx, "get", k.String(), nil); err != nil {
 		return nil, err
 	}
 	s.mu.Lock()
 	defer s.mu.Unlock()
+	s.emit(ctx, "get", k.String(), nil)
 	v, ok := s.m[k.String()]
 	if !ok {
 		return nil, ds.ErrNotFound
@@ -132,11 +178,12 @@ func (s *c20Store) Get(ctx context.Context, k ds.Key) ([]byte, error) {
 	return v, nil
 }
 func (s *c20Store) Has(ctx context.Context, k ds.Key) (bool, error) {
-	if err := s.before("has", k.String()); err != nil {
+	if err := s.before(ctx, "has", k.String(), nil); err != nil {
 		return false, err
 	}
 	s.mu.Lock()
 	defer s.mu.Unlock()
+	s.emit(ctx, "has", k.String(), nil)
 	_, ok := s.m[k.String()]
 	return ok, nil
 }
@@ -150,10 +197,11 @@ func (s *c20Store) GetSize(ctx context.Context, k ds.Key) (int, error) {
 	return len(v), nil
 }
 func (s *c20Store) Query(ctx context.Context, q query.Query) (query.Results, error) {
-	if err := s.before("query", q.Prefix); err != nil {
+	if err := s.before(ctx, "query", q.Prefix, nil); err != nil {
 		return nil, err
 	}
 	s.mu.Lock()
+	s.emit(ctx, "query", q.Prefix, nil)
 	re := make([]query.Entry, 0, len(s.order))
 	for _, k := range s.order {
 		v := s.m[k]
@@ -167,12 +215,14 @@ func (s *c20Store) Query(ctx context.Context, q query.Query) (query.Results, err
 	return query.NaiveQueryApply(q, query.ResultsWithEntries(q, re)), nil
 }
 func (s *c20Store) Sync(ctx context.Context, prefix ds.Key) error {
-	if err := s.before("sync", prefix.String()); err != nil {
+	if err := s.before(ctx, "sync", prefix.String(), nil); err != nil {
 		return err
 	}
 	s.mu.Lock()
 	s.synced = len(s.journal)
 	s.syncPos = append(s.syncPos, s.synced)
+	s.syncTag = append(s.syncTag, s.tag)
+	s.emit(ctx, "sync", prefix.String(), nil)
 	s.mu.Unlock()
 	return nil
 }
@@ -184,6 +234,9 @@ type c20Batch struct {
 }
 
 func (s *c20Store) Batch(ctx context.Context) (ds.Batch, error) {
+	s.mu.Lock()
+	s.emit(ctx, "batch", "", nil)
+	s.mu.Unlock()
 	return &c20Batch{s: s}, nil
 }
 func (b *c20Batch) Put(ctx context.Context, k ds.Key, v []byte) error {
@@ -199,10 +252,10 @@ func (b *c20Batch) Commit(ctx context.Context) error {
 	if len(b.ops) > 0 {
 		first = b.ops[0].key
 	}
-	if err := b.s.before("commit", first); err != nil {
+	if err := b.s.before(ctx, "commit", first, b.ops); err != nil {
 		return err
 	}
-	b.s.write(b.ops)
+	b.s.write(ctx, "commit", first, b.ops)
 	b.ops = nil
 	return nil
 }
@@ -487,7 +540,7 @@ func c20RunPlain(ops []c20POp, ids map[string]int, pb, bs int) (obs []c20Obs, si
 				fmt.Sscanf(strings.Replace(op.Fault, ":", " ", 1), "%s %d", &kind, &at)
 			}
 			store.mu.Lock()
-			store.fail = func(k, _ string) bool {
+			store.fail = func(_ c20Actor, k, _ string) bool {
 				n := cnt[k]
 				cnt[k]++
 				if k == kind && n == at {
@@ -664,6 +717,924 @@ func c20PlainCase(cs *vfCases, r *vfRand, i int, seed uint64) {
 	}
 }
 
+// ---------------------------------------------------------------- part 2: resettable keystore
+
+// ghost state of the Go-side oracle: what a reopened keystore may hold
+type c20Ghost struct {
+	old, nw        map[int]bool
+	acked, started map[int]bool
+	markPos        int // journal index of this epoch's marker entry, -1 if none
+}
+
+func c20CopySet(m map[int]bool) map[int]bool {
+	o := make(map[int]bool, len(m))
+	for k := range m {
+		o[k] = true
+	}
+	return o
+}
+func (g c20Ghost) clone() c20Ghost {
+	return c20Ghost{old: c20CopySet(g.old), nw: c20CopySet(g.nw), acked: c20CopySet(g.acked), started: c20CopySet(g.started), markPos: g.markPos}
+}
+
+type c20PutRec struct {
+	keys  []c20Key
+	begun bool
+	done  chan struct{}
+	res   []int
+	err   error
+}
+
+// c20Tr translates the raw datastore calls of the live keystore into events of
+// Model/ResetKeystore.v and keeps the oracle's ghost state.
+type c20Tr struct {
+	store     *c20Store
+	pb        int
+	byDsKey   map[string]int // slot-relative datastore key -> pool id
+	pool      []c20Key
+	events    []string
+	phase     string // idle starting filling clean1 clean2 tearing
+	counted   bool
+	active    int
+	hasKeys   []int
+	batchOpen bool
+	closing   bool
+	closed    bool
+	puts      []*c20PutRec
+	syncOrd   []int
+	skip      string // non-empty: the run left the modelled fragment (reason)
+	snaps     []c20Ghost
+	branches  map[string]bool
+}
+
+func (tr *c20Tr) emit(e string)    { tr.events = append(tr.events, e) }
+func (tr *c20Tr) ghost() *c20Ghost { return &tr.snaps[len(tr.snaps)-1] }
+
+// snap starts a new ghost snapshot; callers hold store.mu
+func (tr *c20Tr) snap() *c20Ghost {
+	tr.snaps = append(tr.snaps, tr.ghost().clone())
+	tr.store.tag = len(tr.snaps) - 1
+	return tr.ghost()
+}
+
+func (tr *c20Tr) slotKey(raw string) (slot int, rel string) {
+	switch {
+	case strings.HasPrefix(raw, "/k0"):
+		return 0, raw[3:]
+	case strings.HasPrefix(raw, "/k1"):
+		return 1, raw[3:]
+	}
+	return -1, raw
+}
+
+func (tr *c20Tr) coqSkey(raw string) string {
+	_, rel := tr.slotKey(raw)
+	if rel == "/size" {
+		return "KSize"
+	}
+	if id, ok := tr.byDsKey[rel]; ok {
+		k := tr.pool[id]
+		v := 0
+		for _, ch := range k.bits {
+			v = v*2 + int(ch-'0')
+		}
+		return fmt.Sprintf("(dk %d %d %d)", tr.pb, v, id)
+	}
+	tr.skip = "unknown raw key " + raw
+	return "KSize"
+}
+
+func (tr *c20Tr) idsOfOps(ops []c20Op) []int {
+	out := make([]int, 0, len(ops))
+	for _, o := range ops {
+		_, rel := tr.slotKey(o.key)
+		if id, ok := tr.byDsKey[rel]; ok {
+			out = append(out, id)
+		} else {
+			tr.skip = "unknown key in batch " + o.key
+		}
+	}
+	return out
+}
+
+func (tr *c20Tr) coqIDs(ids []int) string {
+	ks := make([]c20Key, len(ids))
+	for i, id := range ids {
+		ks[i] = tr.pool[id]
+	}
+	return c20CoqKeys(ks)
+}
+
+// workerMoved: the worker goroutine is seen doing something else than the reset
+// operation it was running: that operation has returned.
+func (tr *c20Tr) workerMoved() {
+	if tr.phase == "tearing" {
+		tr.finish()
+	}
+}
+
+func (tr *c20Tr) finish() {
+	tr.emit("EFinish")
+	g := tr.snap()
+	base := g.old
+	if g.markPos >= 0 {
+		base = g.nw
+	}
+	n := c20CopySet(base)
+	for k := range g.acked {
+		n[k] = true
+	}
+	g.old, g.nw, g.acked, g.started, g.markPos = n, map[int]bool{}, map[int]bool{}, map[int]bool{}, -1
+	tr.phase = "idle"
+	tr.counted = false
+}
+
+// startReset is called by the driver (holding store.mu) when it launches ResetCids
+func (tr *c20Tr) startReset(nw []c20Key) {
+	tr.emit("EStart " + c20CoqKeys(nw))
+	g := tr.snap()
+	for k := range g.acked {
+		g.old[k] = true
+	}
+	g.nw = map[int]bool{}
+	for _, k := range nw {
+		g.nw[k.id] = true
+	}
+	g.acked, g.started, g.markPos = map[int]bool{}, map[int]bool{}, -1
+	tr.phase = "starting"
+	tr.counted = false
+	tr.hasKeys = nil
+	tr.batchOpen = false
+}
+
+func (tr *c20Tr) onRaw(ev c20Raw) {
+	switch ev.actor.kind {
+	case "put":
+		tr.workerMoved()
+		p := tr.puts[ev.actor.idx]
+		if !p.begun {
+			p.begun = true
+			tr.emit("EPutBegin " + c20CoqKeys(p.keys))
+			g := tr.snap()
+			for _, k := range p.keys {
+				g.started[k.id] = true
+			}
+		}
+		switch ev.kind {
+		case "commit":
+			if ev.failed {
+				tr.skip = "put commit failed"
+			} else {
+				tr.emit("EPutCommit")
+			}
+		case "sync":
+			if ev.failed {
+				tr.skip = "put sync failed"
+			} else {
+				tr.emit("EPutSync")
+				tr.syncOrd = append(tr.syncOrd, ev.actor.idx)
+				g := tr.snap()
+				for _, k := range p.keys {
+					g.acked[k.id] = true
+				}
+			}
+		}
+	case "reset":
+		tr.onReset(ev)
+	default:
+		if ev.kind == "put" && strings.HasSuffix(ev.key, "/size") {
+			tr.workerMoved()
+			tr.emit("EClose")
+			tr.closing, tr.closed = true, true
+		} else if ev.kind == "sync" && tr.closing {
+			tr.emit("ECloseSync")
+			tr.closing = false
+		}
+	}
+}
+
+func (tr *c20Tr) isDelBatch(ops []c20Op) bool { return len(ops) > 0 && ops[0].del }
+
+func (tr *c20Tr) coqDel(ops []c20Op) string {
+	it := make([]string, len(ops))
+	for i, o := range ops {
+		it[i] = tr.coqSkey(o.key)
+	}
+	return "EDel " + vfList(it)
+}
+
+func (tr *c20Tr) onReset(ev c20Raw) {
+	if ev.kind == "batch" {
+		tr.batchOpen = true
+		return
+	}
+	if ev.kind == "commit" || ev.kind == "sync" || ev.kind == "query" {
+		defer func() { tr.batchOpen = false }()
+	}
+	if ev.kind == "get" {
+		return
+	}
+	switch tr.phase {
+	case "starting":
+		switch {
+		case ev.failed:
+			tr.skip = "fault in opStart"
+			tr.branches["fault-start"] = true
+		case ev.kind == "commit" && tr.isDelBatch(ev.ops):
+			tr.emit(tr.coqDel(ev.ops))
+			tr.branches["start-deletes"] = true
+		case ev.kind == "sync":
+			tr.emit("EStartDone")
+			tr.phase = "filling"
+		}
+	case "filling":
+		if ev.failed {
+			tr.branches["fault-filling:"+ev.kind] = true
+			return // ResetCids returns the error: the teardown follows
+		}
+		switch ev.kind {
+		case "has":
+			_, rel := tr.slotKey(ev.key)
+			if id, ok := tr.byDsKey[rel]; ok {
+				tr.hasKeys = append(tr.hasKeys, id)
+			} else {
+				tr.skip = "unknown key in Has " + ev.key
+			}
+		case "commit":
+			var c []int
+			if len(tr.hasKeys) > 0 {
+				c = tr.hasKeys
+				tr.branches["alt-checked"] = true
+			} else {
+				c = tr.idsOfOps(ev.ops)
+				tr.branches["alt-blind"] = true
+			}
+			tr.hasKeys = nil
+			tr.emit("EAltWrite " + tr.coqIDs(c))
+		case "query":
+			if tr.batchOpen { // emptySharedAltDs: the teardown of an aborted reset begins
+				tr.emit("EAbort")
+				tr.phase = "tearing"
+				tr.branches["abort"] = true
+			} else {
+				tr.emit("ECount")
+				tr.counted = true
+			}
+		case "sync":
+			if tr.counted {
+				tr.emit("ECleanup")
+				tr.emit("ECleanSync")
+				tr.phase = "clean1"
+			} else {
+				tr.emit("EAltSync")
+			}
+		}
+	case "clean1":
+		if ev.kind == "put" && ev.key == "/active" {
+			if ev.failed {
+				tr.emit("EFlipFail")
+				tr.branches["fault-marker-put"] = true
+			} else {
+				tr.emit("EFlip")
+				g := tr.snap()
+				g.markPos = len(tr.store.journal) - 1
+				tr.branches["flip"] = true
+			}
+			tr.active = 1 - tr.active
+			tr.phase = "clean2"
+		} else if ev.failed {
+			tr.skip = "fault in clean1"
+		}
+	case "clean2":
+		if ev.kind == "sync" {
+			if ev.failed {
+				tr.skip = "marker sync failed"
+				tr.branches["fault-marker-sync"] = true
+				tr.phase = "tearing"
+			} else {
+				tr.emit("EMarkSync")
+				tr.phase = "tearing"
+			}
+		}
+	case "tearing":
+		switch {
+		case ev.failed:
+			tr.skip = "fault in teardown"
+			tr.branches["fault-teardown"] = true
+		case ev.kind == "commit" && tr.isDelBatch(ev.ops):
+			tr.emit(tr.coqDel(ev.ops))
+			tr.branches["teardown-deletes"] = true
+		case ev.kind == "sync":
+			tr.emit("ETearSync")
+		}
+	default:
+		tr.skip = "reset call in phase " + tr.phase
+	}
+}
+
+// resetDone is called by the driver (holding store.mu) after ResetCids returned
+func (tr *c20Tr) resetDone() {
+	switch tr.phase {
+	case "tearing":
+		tr.finish()
+	case "starting":
+		tr.emit("EStartFail")
+		tr.phase = "idle"
+	case "filling":
+		if !tr.closed {
+			tr.skip = "ResetCids returned in phase filling without Close"
+		}
+	case "idle":
+	default:
+		if !tr.closed {
+			tr.skip = "ResetCids returned in phase " + tr.phase
+		}
+	}
+}
+
+type c20ResetCfg struct {
+	pb, bs     int
+	pre        [][]c20Key // puts before the reset
+	warm       []c20Key   // if non-nil: an undisturbed reset first (makes slot 1 the active one)
+	nw         []c20Key   // keys supplied to the reset under test
+	conc       [][]c20Key // concurrent puts, consumed in order
+	fault      string     // "", "commit:n", "sync:n", "query:n", "has:n", "marker-put", "marker-sync"
+	pPut       int        // chance (percent) of a Put at each opportunity
+	pTick      int
+	cancelAt   int // opportunity index at which the ctx is cancelled (-1 never)
+	closeAt    int // opportunity index at which the keystore is closed (-1 never)
+	postPut    []c20Key
+	finalClose bool
+	hazard     string
+}
+
+type c20ResetOut struct {
+	events []string
+	putRes [][]int
+	live   *[2]any // size, ids
+	crash  []struct {
+		ids  []int
+		size int
+	}
+	skip     string
+	fails    []string // oracle failures
+	failKind string   // "", "size-only", "content"
+	branches map[string]bool
+	resetErr string
+	jlen     int
+}
+
+func c20SetIDs(m map[int]bool) []int {
+	out := make([]int, 0, len(m))
+	for k := range m {
+		out = append(out, k)
+	}
+	sort.Ints(out)
+	return out
+}
+
+// c20CheckGhost: does content C (sorted ids) of journal prefix n satisfy snapshot g?
+func c20CheckGhost(g c20Ghost, n int, c []int) string {
+	base, name := g.old, "old"
+	if g.markPos >= 0 && n > g.markPos {
+		base, name = g.nw, "new"
+	}
+	have := map[int]bool{}
+	for _, id := range c {
+		have[id] = true
+	}
+	for k := range base {
+		if !have[k] {
+			return fmt.Sprintf("key %d of the %s set is missing", k, name)
+		}
+	}
+	for k := range g.acked {
+		if !have[k] {
+			return fmt.Sprintf("acknowledged key %d is missing (%s set)", k, name)
+		}
+	}
+	for _, k := range c {
+		if !base[k] && !g.started[k] {
+			return fmt.Sprintf("key %d is neither in the %s set nor put concurrently", k, name)
+		}
+	}
+	return ""
+}
+
+func c20RunReset(t *testing.T, r *vfRand, pool []c20Key, ids map[string]int, cfg c20ResetCfg) (out c20ResetOut) {
+	out.branches = map[string]bool{}
+	defer func() {
+		if os.Getenv("C20_NORECOVER") != "" {
+			return
+		}
+		if e := recover(); e != nil {
+			out.fails = append(out.fails, fmt.Sprint("panic or deadlock: ", e))
+			out.failKind = "content"
+		}
+	}()
+	synctest.Test(t, func(t *testing.T) {
+		bg := context.Background()
+		store := c20NewStore()
+		opts := []ResettableKeystoreOption{KeystoreOption(WithPrefixBits(cfg.pb), WithBatchSize(cfg.bs))}
+		rks, err := NewResettableKeystore(store, opts...)
+		if err != nil {
+			panic(err)
+		}
+		if _, err := rks.Size(bg); err != nil {
+			panic(err)
+		}
+		tr := &c20Tr{store: store, pb: cfg.pb, byDsKey: map[string]int{}, pool: pool, phase: "idle", branches: out.branches}
+		for _, k := range pool {
+			tr.byDsKey[dsKey(keyspace.MhToBit256(k.h), cfg.pb).String()] = k.id
+		}
+		tr.snaps = []c20Ghost{{old: map[int]bool{}, nw: map[int]bool{}, acked: map[int]bool{}, started: map[int]bool{}, markPos: -1}}
+		store.mu.Lock()
+		store.raw = tr.onRaw
+		store.mu.Unlock()
+
+		// gate: parks every write/sync/query call made on behalf of ResetCids
+		var gmu sync.Mutex
+		gateOn := false
+		var parked *string
+		release := make(chan struct{})
+		store.gate = func(ctx context.Context, kind, key string) {
+			if c20ActorOf(ctx).kind != "reset" {
+				return
+			}
+			switch kind {
+			case "commit", "sync", "query", "put":
+			default:
+				return
+			}
+			gmu.Lock()
+			if !gateOn {
+				gmu.Unlock()
+				return
+			}
+			d := kind + " " + key
+			parked = &d
+			gmu.Unlock()
+			<-release
+		}
+		isParked := func() bool {
+			gmu.Lock()
+			defer gmu.Unlock()
+			return parked != nil
+		}
+		doRelease := func() {
+			gmu.Lock()
+			parked = nil
+			gmu.Unlock()
+			release <- struct{}{}
+		}
+
+		put := func(ks []c20Key) *c20PutRec {
+			p := &c20PutRec{keys: ks, done: make(chan struct{})}
+			store.mu.Lock()
+			idx := len(tr.puts)
+			tr.puts = append(tr.puts, p)
+			store.mu.Unlock()
+			hs := make([]mh.Multihash, len(ks))
+			for i, k := range ks {
+				hs[i] = k.h
+			}
+			ctx := context.WithValue(bg, c20ActorKey{}, c20Actor{kind: "put", idx: idx})
+			go func() {
+				res, err := rks.Put(ctx, hs...)
+				p.err = err
+				if err == nil {
+					p.res = c20IDs(ids, res)
+				}
+				close(p.done)
+			}()
+			synctest.Wait()
+			return p
+		}
+
+		// fault injection on calls made on behalf of ResetCids (armed when the
+		// reset under test starts)
+		armed := false
+		if cfg.fault != "" {
+			var kind, key string
+			at := 0
+			switch cfg.fault {
+			case "marker-put":
+				kind, key = "put", "/active"
+			case "marker-sync":
+				kind, key = "sync", "/active"
+			default:
+				fmt.Sscanf(strings.Replace(cfg.fault, ":", " ", 1), "%s %d", &kind, &at)
+			}
+			n := 0
+			store.mu.Lock()
+			store.fail = func(a c20Actor, k, ky string) bool {
+				if a.kind != "reset" || !armed || k != kind {
+					return false
+				}
+				if (key != "") != (ky == "/active") {
+					return false
+				}
+				n++
+				return n-1 == at
+			}
+			store.mu.Unlock()
+		}
+
+		for _, ks := range cfg.pre {
+			<-put(ks).done
+		}
+
+		reset := func(nw []c20Key, gated bool) error {
+			ctx0, cancel := context.WithCancel(context.WithValue(bg, c20ActorKey{}, c20Actor{kind: "reset"}))
+			defer cancel()
+			ch := make(chan cid.Cid)
+			done := make(chan error, 1)
+			store.mu.Lock()
+			tr.startReset(nw)
+			store.mu.Unlock()
+			gmu.Lock()
+			gateOn = gated
+			gmu.Unlock()
+			go func() { done <- rks.ResetCids(ctx0, ch) }()
+			synctest.Wait()
+			finished := false
+			var rerr error
+			poll := func() {
+				select {
+				case rerr = <-done:
+					finished = true
+				default:
+				}
+			}
+			opp := 0
+			conc := cfg.conc
+			var pending []*c20PutRec
+			closed := false
+			var closeDone chan struct{}
+			// one opportunity for concurrent activity
+			opportunity := func() {
+				if !gated || finished {
+					return
+				}
+				if opp == cfg.cancelAt {
+					cancel()
+					out.branches["cancel"] = true
+				}
+				if opp == cfg.closeAt && !closed {
+					closed = true
+					closeDone = make(chan struct{})
+					go func() { rks.Close(); close(closeDone) }()
+					synctest.Wait()
+					out.branches["close-during-reset"] = true
+				}
+				opp++
+				for len(conc) > 0 && r.Chance(cfg.pPut) && !closed {
+					p := put(conc[0])
+					conc = conc[1:]
+					select {
+					case <-p.done:
+					default:
+						pending = append(pending, p)
+						out.branches["put-while-worker-busy"] = true
+					}
+				}
+			}
+			settle := func() {
+				for {
+					synctest.Wait()
+					poll()
+					if finished || !isParked() {
+						return
+					}
+					opportunity()
+					doRelease()
+				}
+			}
+			settle()
+			for i := 0; i < len(nw) && !finished; i++ {
+				opportunity()
+				if r.Chance(cfg.pTick) {
+					time.Sleep(150 * time.Millisecond)
+					out.branches["tick"] = true
+					settle()
+				}
+				if finished {
+					break
+				}
+				store.mu.Lock()
+				tr.emit("EKey")
+				store.mu.Unlock()
+				sent := false
+				select {
+				case ch <- cid.NewCidV1(cid.Raw, nw[i].h):
+					sent = true
+				case rerr = <-done:
+					finished = true
+				}
+				if !sent {
+					store.mu.Lock()
+					tr.events = tr.events[:len(tr.events)-1]
+					store.mu.Unlock()
+					break
+				}
+				settle()
+			}
+			if !finished {
+				opportunity()
+				if r.Chance(cfg.pTick) {
+					time.Sleep(150 * time.Millisecond)
+					settle()
+				}
+				close(ch)
+				settle()
+			}
+			if !finished {
+				rerr = <-done
+				finished = true
+			}
+			gmu.Lock()
+			gateOn = false
+			gmu.Unlock()
+			if closeDone != nil {
+				<-closeDone
+			}
+			for _, p := range pending {
+				<-p.done
+			}
+			store.mu.Lock()
+			tr.resetDone()
+			store.mu.Unlock()
+			return rerr
+		}
+
+		if cfg.warm != nil {
+			if err := reset(cfg.warm, false); err != nil {
+				panic(fmt.Sprint("warm-up reset failed: ", err))
+			}
+			out.branches["second-reset"] = true
+		}
+		store.mu.Lock()
+		armed = true
+		store.mu.Unlock()
+		if err := reset(cfg.nw, true); err != nil {
+			out.resetErr = err.Error()
+			out.branches["reset-error"] = true
+		}
+		store.mu.Lock()
+		store.fail = nil
+		store.mu.Unlock()
+
+		if !tr.closed && cfg.postPut != nil {
+			<-put(cfg.postPut).done
+		}
+		if !tr.closed {
+			sz, err1 := rks.Size(bg)
+			got, err2 := rks.Get(bg, "")
+			if err1 != nil || err2 != nil {
+				panic(fmt.Sprint("live Size/Get failed: ", err1, err2))
+			}
+			live := [2]any{sz, c20IDs(ids, got)}
+			out.live = &live
+			g := tr.ghost()
+			if msg := c20CheckGhost(*g, len(store.journal), c20IDs(ids, got)); msg != "" {
+				out.fails = append(out.fails, "live keystore: "+msg)
+				out.failKind = "content"
+			}
+			if sz != len(got) {
+				out.fails = append(out.fails, fmt.Sprintf("live keystore: Size=%d but %d keys stored", sz, len(got)))
+				if out.failKind == "" {
+					out.failKind = "size-only"
+				}
+			}
+			if cfg.finalClose {
+				rks.Close()
+			}
+		}
+		// put results in acknowledgement order
+		for _, idx := range tr.syncOrd {
+			p := tr.puts[idx]
+			<-p.done
+			if p.err != nil {
+				tr.skip = "acknowledged put returned " + p.err.Error()
+				out.putRes = append(out.putRes, nil)
+			} else {
+				out.putRes = append(out.putRes, p.res)
+			}
+		}
+
+		// the oracle: reopen a keystore on EVERY journal prefix
+		store.mu.Lock()
+		journal := append([]c20Entry(nil), store.journal...)
+		syncPos := append([]int(nil), store.syncPos...)
+		syncTag := append([]int(nil), store.syncTag...)
+		snaps := tr.snaps
+		store.mu.Unlock()
+		for n := 0; n <= len(journal); n++ {
+			s2 := c20Replay(journal[:n])
+			k2, err := NewResettableKeystore(s2, opts...)
+			if err != nil {
+				out.fails = append(out.fails, fmt.Sprintf("prefix %d: reopen failed: %v", n, err))
+				out.failKind = "content"
+				continue
+			}
+			sz, err1 := k2.Size(bg)
+			got, err2 := k2.Get(bg, "")
+			k2.Close()
+			if err1 != nil || err2 != nil {
+				out.fails = append(out.fails, fmt.Sprintf("prefix %d: Size/Get failed: %v %v", n, err1, err2))
+				out.failKind = "content"
+				continue
+			}
+			c := c20IDs(ids, got)
+			out.crash = append(out.crash, struct {
+				ids  []int
+				size int
+			}{c, sz})
+			gb := 0
+			if n > 0 {
+				gb = journal[n-1].tag
+			}
+			ge := len(snaps) - 1
+			for i, p := range syncPos {
+				if p > n {
+					ge = syncTag[i]
+					break
+				}
+			}
+			for g := gb; g <= ge; g++ {
+				if msg := c20CheckGhost(snaps[g], n, c); msg != "" {
+					out.fails = append(out.fails, fmt.Sprintf("crash keeping %d of %d journal entries: %s", n, len(journal), msg))
+					out.failKind = "content"
+					break
+				}
+			}
+			if sz != len(c) {
+				out.fails = append(out.fails, fmt.Sprintf("crash keeping %d of %d journal entries: reopened Size=%d but %d keys stored", n, len(journal), sz, len(c)))
+				if out.failKind == "" {
+					out.failKind = "size-only"
+				}
+			}
+		}
+		out.events = tr.events
+		if !tr.closed && !cfg.finalClose {
+			store.mu.Lock()
+			store.raw = nil
+			store.mu.Unlock()
+			rks.Close()
+		}
+		out.skip = tr.skip
+		out.jlen = len(journal)
+	})
+	return out
+}
+
+func c20HasDup(ks []c20Key) bool {
+	seen := map[int]bool{}
+	for _, k := range ks {
+		if seen[k.id] {
+			return true
+		}
+		seen[k.id] = true
+	}
+	return false
+}
+
+func c20KeyIDs(ks []c20Key) []int {
+	out := make([]int, len(ks))
+	for i, k := range ks {
+		out[i] = k.id
+	}
+	return out
+}
+
+func c20ResetCase(t *testing.T, cs *vfCases, r *vfRand, i int, seed uint64) {
+	pool := c20Pool(r, 8+r.Intn(16))
+	ids := map[string]int{}
+	for _, k := range pool {
+		ids[string(k.h)] = k.id
+	}
+	cfg := c20ResetCfg{pb: []int{0, 8, 8, 16}[r.Intn(4)], bs: []int{1, 2, 3, 64}[r.Intn(4)], cancelAt: -1, closeAt: -1,
+		pPut: 20 + r.Intn(40), pTick: r.Intn(35)}
+	distinct := func(n int) []c20Key { // n distinct pool keys
+		p := r.Perm(len(pool))
+		if n > len(p) {
+			n = len(p)
+		}
+		out := make([]c20Key, n)
+		for j := range out {
+			out[j] = pool[p[j]]
+		}
+		return out
+	}
+	for j, n := 0, r.Intn(4); j < n; j++ {
+		cfg.pre = append(cfg.pre, distinct(1+r.Intn(4)))
+	}
+	if r.Chance(40) {
+		cfg.warm = distinct(r.Intn(6))
+		if cfg.warm == nil {
+			cfg.warm = []c20Key{}
+		}
+	}
+	cfg.nw = distinct(r.Intn(11))
+	if len(cfg.nw) > 1 && r.Chance(10) {
+		cfg.nw = append(cfg.nw, cfg.nw[0]) // a cid supplied twice
+	}
+	// concurrent puts: every key at most once over all of them
+	pm := r.Perm(len(pool))
+	for j, n := 0, 1+r.Intn(6); j < n && len(pm) > 0; j++ {
+		m := 1 + r.Intn(3)
+		if m > len(pm) {
+			m = len(pm)
+		}
+		ks := make([]c20Key, m)
+		for x := range ks {
+			ks[x] = pool[pm[x]]
+		}
+		pm = pm[m:]
+		cfg.conc = append(cfg.conc, ks)
+	}
+	switch x := r.Intn(100); {
+	case x < 6 && len(cfg.conc) >= 2:
+		// the same key in two concurrent puts
+		cfg.conc[1] = append(cfg.conc[1], cfg.conc[0][0])
+		cfg.hazard = "dup-buffered"
+	case x < 10:
+		cfg.conc[0] = append(cfg.conc[0], cfg.conc[0][0])
+		cfg.hazard = "dup-in-call"
+	}
+	switch x := r.Intn(100); {
+	case x < 7:
+		cfg.fault = "marker-put"
+	case x < 10:
+		cfg.fault = "marker-sync"
+	case x < 16:
+		cfg.fault = fmt.Sprintf("commit:%d", r.Intn(6))
+	case x < 20:
+		cfg.fault = fmt.Sprintf("sync:%d", r.Intn(4))
+	case x < 23:
+		cfg.fault = fmt.Sprintf("query:%d", r.Intn(3))
+	case x < 27:
+		cfg.fault = fmt.Sprintf("has:%d", r.Intn(4))
+	}
+	switch x := r.Intn(100); {
+	case x < 10:
+		cfg.cancelAt = r.Intn(10)
+	case x < 18:
+		cfg.closeAt = r.Intn(10)
+	}
+	if r.Chance(50) {
+		cfg.postPut = distinct(1 + r.Intn(3))
+	}
+	cfg.finalClose = r.Chance(50)
+
+	out := c20RunReset(t, r, pool, ids, cfg)
+	if out.branches["fault-marker-put"] {
+		cfg.hazard = "marker-put-fail"
+	}
+	var sigs []string
+	for s := range out.branches {
+		sigs = append(sigs, s)
+		cs.Count("branch:"+s, 1)
+	}
+	sort.Strings(sigs)
+	cs.Count("kind:reset", 1)
+	cs.Count("reset-events", len(out.events))
+	cs.Count("reset-crash-points", len(out.crash))
+	sig := fmt.Sprintf("reset|%s|pb=%d|bs=%d|ev=%d", strings.Join(sigs, ","), cfg.pb, cfg.bs, len(out.events)/10)
+	desc := map[string]any{"case": i, "seed": seed, "kind": "reset", "pb": cfg.pb, "bs": cfg.bs, "hazard": cfg.hazard,
+		"fault": cfg.fault, "cancel_at": cfg.cancelAt, "close_at": cfg.closeAt, "new": c20KeyIDs(cfg.nw),
+		"events": out.events, "reset_err": out.resetErr, "skip_model": out.skip, "journal_len": out.jlen,
+		"oracle_fail": out.failKind, "oracle_msgs": out.fails}
+	var term string
+	if out.skip != "" || out.events == nil {
+		term = "CaseSkip"
+		cs.Count("reset-oracle-only", 1)
+	} else {
+		pr := make([]string, len(out.putRes))
+		for j, p := range out.putRes {
+			pr[j] = vfNList(p)
+		}
+		live := "None"
+		if out.live != nil {
+			live = fmt.Sprintf("Some ((%d)%%Z, %s)", out.live[0].(int), vfNList(out.live[1].([]int)))
+		}
+		cr := make([]string, len(out.crash))
+		for j, c := range out.crash {
+			cr[j] = fmt.Sprintf("(%s, (%d)%%Z)", vfNList(c.ids), c.size)
+		}
+		term = fmt.Sprintf("CaseR {| q_pb := %d; q_evs := %s;\n   q_putres := %s; q_live := %s;\n   q_crash := %s |}",
+			cfg.pb, vfList(out.events), vfList(pr), live, vfList(cr))
+	}
+	idx := cs.Add(term, desc, sig)
+	if len(out.fails) > 0 {
+		n := len(out.fails)
+		if n > 4 {
+			n = 4
+		}
+		cs.Fail(idx, "reset oracle: "+out.failKind, out.fails[:n])
+	}
+}
+
 func TestVerifC20(t *testing.T) {
 	seed := vfSeed()
 	n := vfEnvInt("VERIF_N", 300)
@@ -675,7 +1646,11 @@ func TestVerifC20(t *testing.T) {
 		if only >= 0 && i != only {
 			continue
 		}
-		c20PlainCase(cs, r, i, seed)
+		if i%3 == 2 {
+			c20ResetCase(t, cs, r, i, seed)
+		} else {
+			c20PlainCase(cs, r, i, seed)
+		}
 	}
 	if err := cs.Flush(); err != nil {
 		t.Fatal(err)
